@@ -749,17 +749,19 @@ class ILTTranslation:
         out.append('(* GENERATED by tools/tr_ilt.py from\n' + ''.join('     %s (sha256 %s)\n' % (k, v[:16]) for k, v in sorted(self.files.items())) +
                    '   Do not edit: regenerated from the working tree on every run. *)')
         out.append('Require Import LT.FieldSec LT.PolyQ LT.ExpPoly LT.ILT.\nLocal Open Scope F_scope.\n')
-        out.append('Section Gen.\nVariable K : fld.\nVariable j : K.\n')
+        hd = '{K : fld} (j : K)'
         out.append('(* ratfun, line %d: cresult += <this> for (n, c) in enumerate(C) *)' % self.poly_line)
-        out.append('Definition poly_term_gen (c : K) (lenC n : nat) : texp K :=\n    %s.\n' % self.poly_term)
+        out.append('Definition poly_term_gen %s (c : K) (lenC n : nat) : texp K :=\n    %s.\n' % (hd, self.poly_term))
         out.append('(* ratfun, line %d: partner accepted iff none of the `continue` tests fires: %s *)' % (self.guard_line, self.guard_src))
         out.append('Definition guard_gen (c : bool) (on o : nat) : bool :=\n    %s.\n' % self.guard)
         out.append('(* ratfun, line %d: result = r * sym.exp(p * t) *)' % self.simple_line)
-        out.append('Definition simple_gen (r p : K) : texp K :=\n    %s.\n' % self.simple)
+        out.append('Definition simple_gen %s (r p : K) : texp K :=\n    %s.\n' % (hd, self.simple))
         out.append('(* ... if o > 1: result *= t ** (o - 1) / sym.factorial(o - 1) *)')
-        out.append('Definition repeated_gen (r p : K) (o : nat) : texp K :=\n    %s.\n' % self.repeated)
+        out.append('Definition repeated_gen %s (r p : K) (o : nat) : texp K :=\n    %s.\n' % (hd, self.repeated))
         out.append('(* ratfun, line %d: conjugate pair branch *)' % self.conj_line)
-        out.append('Definition conj_gen (r rc p pc : K) : texp K :=\n    %s.\n' % self.conj)
+        out.append('Definition conj_gen %s (r rc p pc : K) : texp K :=\n    %s.\n' % (hd, self.conj))
+        out.append('Definition B_gen (K : fld) (j : K) : branches K :=\n  Branches (fun r p => den K j (simple_gen j r p)) (fun r p o => den K j (repeated_gen j r p o))\n'
+                   '           (fun r rc p pc => den K j (conj_gen j r rc p pc)) (fun c lenC n => den K j (poly_term_gen j c lenC n)).\n')
         for k in (1, 2, 3):
             d = self.ds[k]
             ws = [l for l in d['lets'] if l[0] == 'wit']
@@ -767,16 +769,22 @@ class ILTTranslation:
             chain = ''.join('let %s : %s := %s in\n    ' % (l[1], l[3], l[2]) for l in d['lets'] if l[0] == 'let')
             out.append('(* do_damped_sin (line %d), len(ncoeffs) = %d; sqrt witnesses: %s *)' % (
                 self.ds_line, k, '; '.join('%s*%s = %s' % (w[1], w[1], w[2]) for w in ws) or 'none'))
-            out.append('Definition ds%d_u (%s : K) : texp K :=\n    %s%s.\n' % (k, args, chain, d['u']))
+            out.append('Definition ds%d_u %s (%s : K) : texp K :=\n    %s%s.\n' % (k, hd, args, chain, d['u']))
             if d['c'] is not None:
-                out.append('Definition ds%d_c (%s : K) : texp K :=\n    %s%s.\n' % (k, args, chain, d['c']))
+                out.append('Definition ds%d_c %s (%s : K) : texp K :=\n    %s%s.\n' % (k, hd, args, chain, d['c']))
+            # the radicands, as functions of the same arguments (for the witness hypotheses)
+            for wi, w in enumerate(ws):
+                pre = []
+                for l in d['lets']:
+                    if l[0] == 'wit' and l[1] == w[1]:
+                        break
+                    if l[0] == 'let' and l[3] == 'K':
+                        pre.append('let %s : K := %s in\n    ' % (l[1], l[2]))
+                out.append('Definition ds%d_rad%d %s (%s : K) : K :=\n    %s%s.\n' % (k, wi + 1, hd, args, ''.join(pre), w[2]))
+            self.ds[k]['nwit'] = len(ws)
+            self.ds[k]['args'] = args
         out.append('(* Ratfun._find_residues_sub (lcapy/ratfun.py line %d): factor F[j] enters the cover-up denominator iff %s *)' % (self.res_line, self.res_sel_src))
         out.append('Definition res_sel_gen (same : bool) (oi oj : nat) : bool :=\n    %s.\n' % self.res_sel)
-        out.append('End Gen.\n')
-        out.append('Arguments poly_term_gen {K}. Arguments simple_gen {K}. Arguments repeated_gen {K}. Arguments conj_gen {K}.')
-        for k in (1, 2, 3):
-            out.append('Arguments ds%d_u {K}.' % k + (' Arguments ds%d_c {K}.' % k if self.ds[k]['c'] is not None else ''))
-        out.append('')
         kf = '; '.join('("%s", %s)' % (n, '"%s"' % d if d is not None else '""') for n, d in self.key_fields)
         out.append('From Coq Require Import String.\nOpen Scope string_scope.')
         out.append('(* InverseLaplaceTransformer.key: fields of the cache key with their defaults *)')
